@@ -317,6 +317,7 @@ pub fn model_history(spec: &SeqSpec, history: &[Op]) -> (RefStore, RefStore, Exp
     // (a lazy start on an empty directory still creates the first blob)
     let mut m = RefStore::fresh(spec.wcfg.allow_duplicates);
     m.max_data = spec.wcfg.max_data_in_blob;
+    m.max_size = spec.wcfg.max_blob_size;
     let mut before = m.clone();
     let mut exp = Expect::Done;
     for (i, op) in history.iter().enumerate() {
